@@ -10,7 +10,7 @@ use debruijn::dna_string::DnaString;
 use debruijn::filter::{filter_kmers, remove_censored_exts_sharded, CountFilter};
 use debruijn::graph::{BaseGraph, DebruijnGraph};
 use debruijn::msp::msp_sequence;
-use debruijn::{Exts, Kmer};
+use debruijn::{Exts, Kmer, Mer, Vmer};
 use std::collections::{BTreeMap, HashMap};
 
 macro_rules! with_p_type {
@@ -110,7 +110,18 @@ pub fn exec06(a: &[&str]) -> String {
     let mask = nat_list(a[4]);
     let reads0 = read_seqs(a[5]);
     let reads1: Vec<Vec<u8>> = reads0.iter().enumerate().map(|(i, r)| if mask.contains(&i) { rc_of(r) } else { r.clone() }).collect();
-    with_graph_kmer!(k, rcsym_k, &reads0, &reads1, a[2] == "1", a[3].parse().unwrap())
+    // the strand symmetry must hold for every number of bucket passes of filter_kmers: pick one deterministically from the
+    // request (1, 2, 3, 5 or 17 passes; the model is pass-independent by C05) through the bytes-per-unit hook
+    let total: usize = reads0.iter().map(|r| r.len().saturating_sub(k - 1)).sum();
+    let target = [1usize, 1, 2, 3, 5, 17][(total + reads0.len()) % 6];
+    if target > 1 && total > 0 {
+        debruijn::verif_hooks::set_bytes_per_unit((4 * total / target).max(1));
+    }
+    let r = std::panic::catch_unwind(std::panic::AssertUnwindSafe(|| {
+        with_graph_kmer!(k, rcsym_k, &reads0, &reads1, a[2] == "1", a[3].parse().unwrap())
+    }));
+    debruijn::verif_hooks::set_bytes_per_unit(0);
+    match r { Ok(s) => s, Err(e) => std::panic::resume_unwind(e) }
 }
 
 fn queries<K: Kmer>(g: &DebruijnGraph<K, u32>, probes: &str) -> String {
@@ -185,6 +196,15 @@ fn big_k<K: Kmer + Send + Sync>(seed: u64, n_nodes: usize, threads: usize, reps:
         for (km, d) in &probes {
             match g.find_link(*km, *d) { Some((t, dd, f)) => { mix(t as u64 + 7); mix(matches!(dd, debruijn::Dir::Left) as u64); mix(f as u64); } None => mix(3) }
         }
+        // lookups for PRESENT k-mers: both terminal k-mers of every node must be found, as ends of that very node
+        for i in 0..g.len() {
+            let s = g.get_node(i).sequence();
+            let first: K = s.get_kmer(0);
+            let last: K = s.get_kmer(s.len() - k);
+            for (km, d) in [(first, debruijn::Dir::Right), (last, debruijn::Dir::Left)] {
+                match g.find_link(km, d) { Some((t, dd, f)) => { mix(t as u64 + 11); mix(matches!(dd, debruijn::Dir::Left) as u64); mix(f as u64); } None => mix(5) }
+            }
+        }
         h
     };
     let want = fp(&serial);
@@ -193,7 +213,7 @@ fn big_k<K: Kmer + Send + Sync>(seed: u64, n_nodes: usize, threads: usize, reps:
         let got = pool.install(|| fp(&bg.clone().finish()));
         if got != want { return format!("same=0 rep={} threads={}", r, threads); }
     }
-    format!("same=1 nodes={} queries={} threads={} reps={}", n_nodes, 2 * n_nodes + probes.len(), threads, reps)
+    format!("same=1 nodes={} queries={} threads={} reps={}", n_nodes, 4 * n_nodes + probes.len(), threads, reps)
 }
 
 pub fn exec19(a: &[&str]) -> String {
